@@ -41,6 +41,19 @@ PROPS = {
         "partial": [],
         "assumptions": COMMON_ASSUME,
     },
+    "C04": {
+        "claim": "Exact characterisation of Metablock::verify (ok <=> signatures non-empty, t >= 1, t <= number of deduplicated entries that verify under an authorized key of that id), soundness with distinct-key witness, completeness under permutations, and independence of the HashMap iteration order are Lean theorems for all lists, thresholds, key types and validity oracles; tied to the code by a systematic scope plus random cases with real keys of every scheme and a ground-truth oracle.",
+        "level_note": "Trusted: Lean kernel; ring's verification is the parameter `valid`; 'the signature of key A does not verify under key B / after a bit flip' is sampled with real keys, not proved.",
+        "technique": 'Lean 4 theorems about an executable model + model/implementation correspondence check (differential run with property oracle)',
+        "rule": "ops = vblock(t, authorized ids, entries with constructed validity) run through the public Metablock::verify on a block "
+                "assembled as JSON with real signatures; distinct = distinct op line; non-trivial = non-empty signature list and t >= 1 "
+                "(gets past both guards)",
+        "exhaustive_note": "systematic scope given in generator_notes (all short signature lists x authorized sets x thresholds)",
+        "trusted_base": ["ring signature verification = parameter `valid` of the theorems; HashMap iteration order = parameter `ord` "
+                         "(any permutation)", "u32 arithmetic modelled in Nat (the only subtraction is guarded by the == 0 break)"],
+        "partial": ["cryptographic negatives (wrong key, bit flip) are sampled, not proved"],
+        "assumptions": COMMON_ASSUME,
+    },
     "C05": {
         "claim": 'Injectivity of canon and of the signed text (distinct JSON values => distinct signed bytes) are Lean theorems for all values; single-leaf edits of generated layouts/links are checked on the real code (old signatures rejected, ed25519 signature changes).',
         "level_note": 'Trusted: Lean kernel; unforgeability of the signature schemes (ring) for the "never verifies" reading; metadata->JSON injectivity is in C16.',
